@@ -200,8 +200,17 @@ def run_case(case, ctx):
         eps_f = float(gen.choice(rs, [1e-8, 0.0]))
         desc["epsilon"] = eps_f
         bound_eps = eps_f
-        X = fista(give(UtM), give(UtU), x=None if x0 is None else x0.copy(), n_iter_max=4000, non_negative=True,
-                  sparsity_coef=ls, ridge_coef=lr, tol=0.0, epsilon=eps_f)
+        if rs.rand() < 0.3:
+            # the cross-product handed over in its list form (one Gram matrix per mode, as the Tucker core update does): the same problem,
+            # hence the same minimiser; the step size has to be supplied in that form
+            ctx.count("fista_list_form")
+            desc["UtU_form"] = "list"
+            step = 1.0 / (float(np.linalg.eigvalsh(UtU)[-1]) + 2 * lr)
+            X = fista(give(UtM), [give(UtU)], x=None if x0 is None else x0.copy(), n_iter_max=4000, non_negative=True,
+                      sparsity_coef=ls, ridge_coef=lr, tol=0.0, epsilon=eps_f, lr=step)
+        else:
+            X = fista(give(UtM), give(UtU), x=None if x0 is None else x0.copy(), n_iter_max=4000, non_negative=True,
+                      sparsity_coef=ls, ridge_coef=lr, tol=0.0, epsilon=eps_f)
     else:
         xv = None if x0 is None else x0[:, 0].copy()
         v0 = UtM[:, 0].copy()
